@@ -257,7 +257,7 @@ def rdend(rng, n, heights):
         if heights == 'monotone':      # parent never below its children, many ties
             h = max(hgt[a], hgt[b]) + Fraction(rng.choice([0, 0, 1, 2]), 2)
         elif heights == 'distinct':
-            h = max(hgt[a], hgt[b]) + Fraction(rng.randint(1, 4), 4) + Fraction(t, 1000)
+            h = max(hgt[a], hgt[b]) + Fraction(rng.randint(1, 4), 4) + Fraction(t, 1024)   # dyadic: exact as a float
         elif heights == 'sorted':
             h = Fraction(t // 2)
         else:                          # arbitrary: parents may be lower than their children
